@@ -4,7 +4,8 @@
     - RegularExpression::match, matchUnion, matches() in XMLSCHEMA_MODE   (RegularExpression.cpp)
     Patterns and subject strings are lists of code points (the C++ works on UTF-16 units and composes surrogate
     pairs in processNext / Context::nextCh; offsets are only ever compared, so the order-preserving renumbering is
-    not observable for well-formed UTF-16).  Not modelled: category/block escapes \p{..} ([PE_Unsupported]),
+    not observable for well-formed UTF-16).  Category escapes \p{L} \p{Lu} .. use the library's tokens of Gen/GenC11Cat.v;
+    not modelled: block escapes \p{Is..} and other keywords ([PE_Unsupported]),
     options other than "X", the opStack variant of match used when the subject is longer than 256 units (same
     function, covered by the correspondence only), captures (there are none in schema mode).
 
@@ -12,7 +13,7 @@
       fx_add : addRange keeps a range that starts inside the last range and ends beyond it (F26)
       fx_ovl : doTokenOverlap treats a negated class op / supplementary first character correctly (F27)
       fx_dot : '.' excludes only \n and \r, compared as code points (F29) *)
-From XV Require Export Base.XDefs C11.Spec11 C11.ModelRange11 Gen.GenC11.
+From XV Require Export Base.XDefs C11.Spec11 C11.ModelRange11 Gen.GenC11 Gen.GenC11Cat.
 Local Open Scope N_scope.
 
 Record sw : Type := mkSw { fx_add : bool; fx_ovl : bool; fx_dot : bool }.
@@ -89,6 +90,50 @@ Definition processNext (p : pst) : res pst perr :=
   end.
 
 Definition mem_n (c : N) (l : list N) : bool := existsb (N.eqb c) l.
+
+(** RegxParser::processBacksolidus_pP: "{name}" is read straight from fString; RangeTokenMap::getRange(name, complement).
+    Known names: the 37 general-category names (tokens from Gen/GenC11Cat.v; the complement token is the one
+    UnicodeRangeFactory builds with complementRanges). *)
+Fixpoint split_brace (l : list N) : option (list N * list N) :=
+  match l with
+  | [] => None
+  | c :: r => if c =? 125 then Some ([], r)
+              else match split_brace r with Some (n, r') => Some (c :: n, r') | None => None end
+  end.
+
+Fixpoint name_eqb (a b : list N) : bool :=
+  match a, b with
+  | [], [] => true
+  | x :: a', y :: b' => (x =? y) && name_eqb a' b'
+  | _, _ => false
+  end.
+
+Fixpoint cat_lookup (name : list N) (names : list (list N)) (toks : list (list rng)) : option (list rng) :=
+  match names, toks with
+  | n :: ns, t :: ts => if name_eqb name n then Some t else cat_lookup name ns ts
+  | _, _ => None
+  end.
+
+Definition pcat_tok (name : list N) (compl : bool) : option rtok :=
+  match cat_lookup name cat_names cat_toks with
+  | Some r =>
+      let t := mkR r true true (2 * length r + 16)%nat (match r with [] => false | _ => true end) in
+      Some (if compl then (if alloc t then complementRanges true t else mkR [(0, 0x10FFFF)] true true 16 true) else t)
+  | None => None
+  end.
+
+(** processBacksolidus_pP up to the lookup: returns the name and the registers after "}" (fState/fCharData stay those
+    of the "{" token; the caller's processNext follows) *)
+Definition parse_pP (p : pst) : res (list N * pst) perr :=
+  match processNext p with
+  | Err e => Err e
+  | Ok p1 =>
+      if negb (pstate_eqb (stt p1) S_CHAR) || negb (chd p1 =? 123) then Err PE_Parse else
+      match split_brace (rest p1) with
+      | None => Err PE_Parse
+      | Some (name, r') => Ok (name, mkP r' (stt p1) (chd p1) (inbr p1))
+      end
+  end.
 
 (** ParserForXMLSchema::decodeEscaped *)
 Definition decodeEscaped (p : pst) : res N perr :=
@@ -186,8 +231,8 @@ Fixpoint cc_loop (fuel : nat) (useN : bool) (p : pst) (tk : rtok) (isN first : b
     else
       let ch0 := chd p in
       (* first part: escapes and subtraction *)
-      let step (ch : N) (end_ wasDecoded : bool) (tk : rtok) : res (rtok * bool * pst) perr :=
-        do p1 <- processNext p;
+      let step (p0 : pst) (ch : N) (end_ wasDecoded : bool) (tk : rtok) : res (rtok * bool * pst) perr :=
+        do p1 <- processNext p0;
         if end_ then cc_loop f useN p1 tk isN false else
         if pstate_eqb type S_CHAR &&
            ((ch =? 91) || (ch =? 93) || ((ch =? 45) && (chd p1 =? 93) && first)) then Err PE_Parse
@@ -212,10 +257,15 @@ Fixpoint cc_loop (fuel : nat) (useN : bool) (p : pst) (tk : rtok) (isN first : b
             else cc_loop f useN p3 (addR tk ch rangeEnd) isN false in
       if pstate_eqb type S_BACKSOLIDUS then
         match named_tok ch0 with
-        | Some nt => step ch0 true false (mergeRanges tk nt)
+        | Some nt => step p ch0 true false (mergeRanges tk nt)
         | None =>
-            if (ch0 =? 112) || (ch0 =? 80) then Err PE_Unsupported
-            else do ch <- decodeEscaped p; step ch false (ch0 =? 45) tk
+            if (ch0 =? 112) || (ch0 =? 80) then
+              do (name, p') <- parse_pP p;
+              match pcat_tok name (ch0 =? 80) with
+              | Some nt => step p' ch0 true false (mergeRanges tk nt)
+              | None => Err PE_Unsupported
+              end
+            else do ch <- decodeEscaped p; step p ch false (ch0 =? 45) tk
         end
       else if pstate_eqb type S_CCSUB && negb first then
         (* subtraction: [tok-[...]] *)
@@ -233,7 +283,7 @@ Fixpoint cc_loop (fuel : nat) (useN : bool) (p : pst) (tk : rtok) (isN first : b
         let tk3 := subtractRanges tk1 tk2c false in
         if negb (pstate_eqb (stt p4) S_CHAR) || negb (chd p4 =? 93) then Err PE_Parse
         else Ok (tk3, false, p4)
-      else step ch0 false false tk
+      else step p ch0 false false tk
   end.
 
 Definition parseCharacterClass (fuel : nat) (useN : bool) (p : pst) : res (tok * pst) perr :=
@@ -325,7 +375,12 @@ with parseAtom (fuel : nat) (p : pst) {struct fuel} : res (tok * pst) perr :=
           | Some nt => do p1 <- processNext p; Ok (TRange false (rs nt), p1)
           | None =>
               if is_digit ch then Err PE_Runtime
-              else if (ch =? 112) || (ch =? 80) then Err PE_Unsupported
+              else if (ch =? 112) || (ch =? 80) then
+                do (name, p') <- parse_pP p;
+                match pcat_tok name (ch =? 80) with
+                | Some nt => do p1 <- processNext p'; Ok (TRange false (rs nt), p1)
+                | None => Err PE_Unsupported
+                end
               else do c <- decodeEscaped p; do p1 <- processNext p; Ok (TChar c, p1)
           end
       | S_CHAR =>
@@ -630,7 +685,27 @@ Definition xmatch_tok (w : sw) (fuel : nat) (t : tok) (s : list N) : xres :=
     beyond cannot complete, so trying them changes nothing.) *)
 Inductive sres : Type := SNone | SFound (a b : nat) | SDiverge.
 
+(** lengths in UTF-16 units, as Token::getMinLength and fLimit count them *)
+Definition units_of (s : list N) : nat := fold_right (fun c n => ((if c <? 0x10000 then 1 else 2) + n)%nat) O s.
+Fixpoint minlen_u (t : tok) : nat :=
+  match t with
+  | TEmpty => 0
+  | TDot | TChar _ | TRange _ _ => 1
+  | TString s => units_of s
+  | TConcat l => (fix go (l : list tok) : nat := match l with [] => 0 | x :: r => minlen_u x + go r end) l
+  | TUnion l =>
+      match l with
+      | [] => 0
+      | x :: r => (fix go (m : nat) (l : list tok) : nat :=
+                     match l with [] => m | y :: r' => go (Nat.min m (minlen_u y)) r' end) (minlen_u x) r
+      end
+  | TClosure mn _ t => mn * minlen_u t
+  | TParen t => minlen_u t
+  end%nat.
+
 Definition xsearch_tok (w : sw) (fuel : nat) (sl : bool) (t : tok) (s : list N) : sres :=
+  (* if (context.fLimit < fMinLength) return false; *)
+  if Nat.ltb (units_of s) (minlen_u t) then SNone else
   let (o, nclos) := compile w true t HNull 0 in
   (fix go (n : nat) (start : nat) : sres :=
      match omatch w true sl s fuel o (fun o' st' => MR (Some o') st') start (repeat None nclos) with
